@@ -167,8 +167,10 @@ class SelectEventLoop(EventLoop):
         """
         Call all the registered idle callbacks.
         """
-        for callback in self._idle_callbacks.values():
-            callback()
+        # a callback may remove (or add) idle callbacks: iterate over a snapshot, skip the removed ones
+        for handle, callback in list(self._idle_callbacks.items()):
+            if handle in self._idle_callbacks:
+                callback()
 
     def run(self) -> None:
         """
